@@ -119,6 +119,81 @@ fn mating_positions(rng: &mut Rng, n: usize, out: &mut Vec<Tagged>) {
     }
 }
 
+/// mate-in-one positions built backwards: a checkmated position with little material (minor pieces
+/// included), then the mating move retracted - as a capture of any kind of man, or quietly with the
+/// half-move clock anywhere up to 99
+fn retro_mates(rng: &mut Rng, n: usize, out: &mut Vec<Tagged>) {
+    let mut tries = 0;
+    let mut made = 0;
+    while made < n && tries < n * 20000 {
+        tries += 1;
+        let white = rng.chance(1, 2); // the mating side
+        let up = |c: u8| if white { c.to_ascii_uppercase() } else { c };
+        let dn = |c: u8| if white { c } else { c.to_ascii_uppercase() };
+        let mut sq = [b'.'; 64];
+        let edge: Vec<usize> = (0..64).filter(|i| i % 8 == 0 || i % 8 == 7 || i / 8 == 0 || i / 8 == 7).collect();
+        // bare-king mates by minor pieces alone exist only in the corners: half of the attempts go there
+        let minimal = rng.chance(1, 2);
+        let dk = if minimal { *rng.pick(&[0usize, 7, 56, 63]) } else { edge[rng.below(edge.len() as u64) as usize] };
+        sq[dk] = dn(b'k');
+        let near = |rng: &mut Rng, d: i32| -> Option<usize> {
+            let f = (dk % 8) as i32 + rng.below((2 * d + 1) as u64) as i32 - d;
+            let r = (dk / 8) as i32 + rng.below((2 * d + 1) as u64) as i32 - d;
+            if (0..8).contains(&f) && (0..8).contains(&r) { Some((r * 8 + f) as usize) } else { None }
+        };
+        if let Some(s) = near(rng, 2) {
+            if sq[s] == b'.' {
+                sq[s] = up(b'k');
+            }
+        }
+        if !sq.contains(&up(b'k')) {
+            continue;
+        }
+        let set = if minimal { *rng.pick(&[&b"nn"[..], b"bn", b"bb", b"nnb", b"nnn"]) } else { *rng.pick(&[&b"nn"[..], b"bn", b"bb", b"n", b"b", b"nnb", b"r", b"q", b"rn", b"nnp", b"bp"]) };
+        for &c in set {
+            if let Some(s) = near(rng, 3) {
+                if sq[s] == b'.' {
+                    sq[s] = up(c);
+                }
+            }
+        }
+        for _ in 0..(if minimal { 0 } else { rng.below(3) }) {
+            if let Some(s) = near(rng, 1) {
+                if sq[s] == b'.' {
+                    sq[s] = dn(*rng.pick(&b"pnb"[..]));
+                }
+            }
+        }
+        let Ok(m) = chess_movegen::fen::parse_fen(fen_of(&sq, !white, 0, None, 0, 1).as_bytes()) else { continue };
+        if m.state() != chess_movegen::GameState::CheckMate {
+            continue;
+        }
+        // retract the mating move: a man of the mating side goes back from `t` to an empty `s`,
+        // optionally putting a captured man back on `t`
+        let movers: Vec<usize> = (0..64).filter(|&i| sq[i] != b'.' && (sq[i].is_ascii_uppercase() == white)).collect();
+        let t = *rng.pick(&movers);
+        let captured: Option<u8> = if rng.chance(2, 3) { Some(dn(*rng.pick(&b"qrbnp"[..]))) } else { None };
+        let empties: Vec<usize> = (0..64).filter(|&i| sq[i] == b'.').collect();
+        let mut found = false;
+        for _ in 0..12 {
+            let s0 = *rng.pick(&empties);
+            let mut pre = sq;
+            pre[s0] = sq[t];
+            pre[t] = captured.unwrap_or(b'.');
+            let half = *rng.pick(&[0u32, 7, 98, 99]);
+            let Ok(b) = chess_movegen::fen::parse_fen(fen_of(&pre, white, 0, None, half, 1).as_bytes()) else { continue };
+            let hit = b.legals().any(|mv| mv.source.to_u8() as usize == s0 && mv.dest.to_u8() as usize == t && b.move_new(mv).map(|nb| view(&nb).squares == sq).unwrap_or(false));
+            if hit {
+                out.push(Tagged { board: b, tag: if captured.is_some() { "retro-capture-mate" } else { "retro-quiet-mate" } });
+                made += 1;
+                found = true;
+                break;
+            }
+        }
+        let _ = found;
+    }
+}
+
 fn search_cases(out: &mut Out, t: &Tagged, hist: &[Board], kvals: &[u64]) {
     let b = t.board;
     let v = view(&b);
@@ -139,6 +214,8 @@ fn search_cases(out: &mut Out, t: &Tagged, hist: &[Board], kvals: &[u64]) {
         });
         // the specification's verdict on what the search returned (legal move / none / mate in one)
         if let Some((r, _)) = res {
+            // the notion "first pass finished" the theorems are stated with, evaluated by the model
+            out.record("first-pass", true, format!("searchfp {p} hist={h} k={k}"), r.rsplit(',').next().unwrap().to_string());
             out.record("oracle", true, format!("searchchk {p} k={k} res={r}"), "ok".into());
         } else {
             out.record("oracle", true, format!("searchchk {p} k={k} res=none,Min,false"), "search-panicked".into());
@@ -182,6 +259,7 @@ pub fn c12(out: &mut Out, thorough: bool) {
     let mut rng = Rng::new(out.seed ^ 0xC12);
     let mut ps: Vec<Tagged> = Vec::new();
     mating_positions(&mut rng, if thorough { 6000 } else { 300 }, &mut ps);
+    retro_mates(&mut rng, if thorough { 6000 } else { 300 }, &mut ps);
     // positions from play that happen to contain a mate in one, plus ordinary ones
     let extra = positions(&mut rng, if thorough { 30_000 } else { 2_500 });
     let mut plain = 0;
